@@ -28,6 +28,7 @@ type deferred struct {
 }
 
 type Frame struct {
+	relaxedLocals bool // set while a call-site assertion is evaluated (contract.go lookupLocal)
 	c      *FuncCtx
 	fn     *ssa.Function
 	con    *Contract
@@ -593,6 +594,12 @@ func (f *Frame) enterBlock(b *ssa.BasicBlock, entryState *State, entryReach stri
 	for _, inv := range li.invs {
 		invTerms = append(invTerms, f.evalClauseAt(inv, b, ls, nil))
 	}
+	for i := range tinv {
+		tinv[i] = c.nameQuantified(tinv[i], fmt.Sprintf("%sb%d_hq%d", f.prefixSym(), b.Index, i))
+	}
+	for i := range invTerms {
+		invTerms[i] = c.nameQuantified(invTerms[i], fmt.Sprintf("%sb%d_hi%d", f.prefixSym(), b.Index, i))
+	}
 	hre := c.define(fmt.Sprintf("%sb%d_h", f.prefixSym(), b.Index), "Bool", and(append(append([]string{re}, tinv...), invTerms...)...))
 	f.in[b] = ls
 	f.reach[b] = hre
@@ -844,12 +851,34 @@ type blockCur struct {
 	dead  bool
 }
 
+// nameQuantified: a quantified fact that is about to become part of a block predicate is replaced by a Boolean name q
+// with the global, one-directional axiom q => fact (see blockCur.assume).
+func (c *FuncCtx) nameQuantified(t, hint string) string {
+	if c.inlineDefs > 0 || !(strings.Contains(t, "(forall ") || strings.Contains(t, "(exists ")) {
+		return t
+	}
+	q := c.declare(hint, "Bool")
+	c.axiom(fmt.Sprintf("(=> %s %s)", q, t), q)
+	return q
+}
+
 func (cur *blockCur) assume(t string) {
 	if t == "true" || t == "" {
 		return
 	}
 	cur.n++
-	cur.reach = cur.f.c.define(fmt.Sprintf("%sb%d_a%d", cur.f.prefixSym(), cur.b.Index, cur.n), "Bool", and(cur.reach, t))
+	c := cur.f.c
+	if c.inlineDefs == 0 && (strings.Contains(t, "(forall ") || strings.Contains(t, "(exists ")) {
+		// A quantified fact never sits inside a block predicate: block predicates are used in both polarities (as
+		// conditions of the `ite` terms that merge states), and the solvers' incremental front end is not reliable
+		// for quantifiers in such positions (observed: `unsat` answers that disappear when an unused definition is
+		// removed). The fact gets a Boolean name q with the one-directional axiom q => fact; the path assumes q.
+		// Sound for proving (the path may be taken although q is false: more behaviours, never fewer).
+		q := c.declare(fmt.Sprintf("%sb%d_q%d", cur.f.prefixSym(), cur.b.Index, cur.n), "Bool")
+		c.axiom(fmt.Sprintf("(=> %s %s)", q, t), q)
+		t = q
+	}
+	cur.reach = c.define(fmt.Sprintf("%sb%d_a%d", cur.f.prefixSym(), cur.b.Index, cur.n), "Bool", and(cur.reach, t))
 }
 
 func (f *Frame) execBlock(b *ssa.BasicBlock) {
